@@ -1,14 +1,128 @@
 (* C08 - results are collected exactly once under concurrent writers.
-   Only statements here; every proof is `exact <lemma>`. *)
+   Only statements here; every proof is `exact <lemma>`.
+
+   The model (ResultsFiles.v): any number of appenders (each a list of (file, row) to append,
+   to node batch files or directly to the processed file) and collectors (each a number of
+   process_results rounds); `run (init acts) sch` executes the schedule `sch` - a list of
+   (actor number, glob order) - one visible operation (lock acquire / release, open-append,
+   glob, read, remove) per entry, and is `None` if an entry is not enabled.  The theorems
+   quantify over ALL actor lists and ALL schedules.  `quiescent s`: no actor is inside a
+   locked section.  Field list, delimiter and file names are GENERATED from /repo. *)
 From Coq Require Import String Ascii List Bool NArith Arith Permutation.
-From Jade Require Import Base Csv CsvProofs ResultsFiles.
+From Jade Require Import Base Csv CsvProofs ResultsFiles ResultsFilesProofs.
 From Jade.Gen Require Import ResultsFilesGen.
 Import ListNotations.
 Open Scope string_scope.
 
+(* no loss, no duplication: whenever nobody is inside a locked section, the rows of the
+   processed file together with the rows of the existing node files are exactly the rows
+   appended so far (as multisets) *)
+Theorem c08_exactly_once : forall acts s,
+  Forall initial_actor acts -> reachable acts s -> quiescent s = true ->
+  Permutation (proc_rows s ++ node_rows s) (map snd (log s)).
+Proof. exact exactly_once. Qed.
+Print Assumptions c08_exactly_once.
+
+(* "appended so far" is tied to the appenders' programs: log + still-to-write = all rows *)
+Theorem c08_log_is_progress : forall acts sch s ops,
+  run (init acts) sch = Some (s, ops) ->
+  Permutation (map snd (log s) ++ pending s) (program_rows acts).
+Proof. exact log_is_progress. Qed.
+Print Assumptions c08_log_is_progress.
+
+(* the return values of all process_results rounds are exactly the rows moved into the processed
+   file (the rest of it are the rows appended to it directly) *)
+Theorem c08_reported_are_moved : forall acts s,
+  Forall initial_actor acts -> reachable acts s -> quiescent s = true ->
+  Permutation (proc_rows s) (direct (log s) ++ reported s).
+Proof. exact reported_are_moved. Qed.
+Print Assumptions c08_reported_are_moved.
+
+(* every row appended to a node file is either still in a node file or in exactly one return
+   value (multiset equality: never in two, never lost) *)
+Theorem c08_reported_once : forall acts s,
+  Forall initial_actor acts -> reachable acts s -> quiescent s = true ->
+  Permutation (reported s ++ node_rows s) (node_log (log s)).
+Proof. exact reported_once. Qed.
+Print Assumptions c08_reported_once.
+
+(* after all appenders have finished: any continuation in which at least one further collect
+   round was started and which ends with nobody inside a locked section leaves no node file,
+   every node row in exactly one return value and every row of the programs exactly once in the
+   processed file *)
+Theorem c08_final_collect : forall acts s sch s' ops,
+  Forall initial_actor acts -> reachable acts s -> quiescent s = true -> appenders_done s = true ->
+  run s sch = Some (s', ops) -> quiescent s' = true ->
+  total_rounds (actors s') <> total_rounds (actors s) ->
+  node_ids (files s') = [] /\
+  Permutation (reported s') (node_log (log s')) /\
+  Permutation (proc_rows s') (program_rows acts).
+Proof. exact final_collect. Qed.
+Print Assumptions c08_final_collect.
+
+(* every file that exists, in every reachable state (also in the middle of locked sections), is
+   the header followed by rows, reads back (csv.DictReader model) as exactly those rows, and
+   every row's text parses into the fields that were written: no truncation, no mis-attribution *)
+Theorem c08_parses : forall acts s f its,
+  Forall initial_actor acts -> reachable acts s -> fget f (files s) = Some its ->
+  exists rs, its = Hdr :: map Row rs /\ read_items its = Some rs /\
+             Forall (fun r => parse_line delim (format_row r) = Some (row_fields r)) rs.
+Proof. exact files_parse. Qed.
+Print Assumptions c08_parses.
+
 (* csv.writer (minimal quoting, empty line terminator) followed by csv.reader gives back exactly
-   the fields, for all field texts without CR / LF (CPython 3.12 leaves those unquoted). *)
+   the fields, for all field texts without CR / LF (CPython 3.12 leaves those unquoted) *)
 Theorem c08_csv_round_trip : forall d fs,
   delim_ok d -> Forall no_crlf fs -> parse_line d (format_line d fs) = Some fs.
 Proof. exact parse_format_line. Qed.
 Print Assumptions c08_csv_round_trip.
+
+(* no process_results round ever raises (file missing / unparsable) *)
+Theorem c08_no_failure : forall acts s i rounds pc acc failed rets,
+  Forall initial_actor acts -> reachable acts s ->
+  nth_error (actors s) i = Some (Col rounds pc acc failed rets) ->
+  failed = false /\ Forall (fun o => o <> None) rets.
+Proof. exact no_failure. Qed.
+Print Assumptions c08_no_failure.
+
+(* the soft locks exclude: two actors are never inside a locked section on the same file *)
+Theorem c08_mutual_exclusion : forall acts s i j a b f,
+  Forall initial_actor acts -> reachable acts s ->
+  nth_error (actors s) i = Some a -> nth_error (actors s) j = Some b ->
+  holds a f -> holds b f -> i = j.
+Proof. exact mutual_exclusion. Qed.
+Print Assumptions c08_mutual_exclusion.
+
+(* ---------- non-vacuity: a concrete run ---------- *)
+Definition ex_r1 := mkrow "a,b" "0" "finished" "1.5" "100.25" "None".
+Definition ex_r2 := mkrow "q""x y" "-9" "canceled" "0.0" "100.5" "77".
+Definition ex_r3 := mkrow "d" "1" "canceled" "0" "101.0" "None".
+Definition ex_acts := [App [(Node 1, ex_r1); (Node 2, ex_r2)] AIdle; Col 2 CIdle [] false []; App [(Proc, ex_r3)] AIdle].
+(* appender 0 writes r1; the collector globs [1]; appender 0 writes r2 while the collector moves
+   file 1; appender 2 has to wait for the processed lock *)
+Definition ex_sch1 : list label :=
+  [(0, []); (0, []); (0, []); (1, []); (1, [1%N]); (0, []); (1, []); (1, []); (0, []); (1, []); (1, []); (1, []); (0, []);
+   (1, []); (2, []); (2, []); (2, [])].
+Definition ex_sch2 : list label :=
+  [(1, []); (1, [2%N]); (1, []); (1, []); (1, []); (1, []); (1, []); (1, [])].
+
+Example c08_ex_initial : Forall initial_actor ex_acts.
+Proof. apply initial_actorb_spec. vm_compute. reflexivity. Qed.
+Example c08_ex_run :
+  option_map (fun p => (quiescent (fst p), appenders_done (fst p), proc_rows (fst p), node_rows (fst p), reported (fst p)))
+             (run (init ex_acts) ex_sch1)
+  = Some (true, true, [ex_r1; ex_r3], [ex_r2], [ex_r1]).
+Proof. vm_compute. reflexivity. Qed.
+Example c08_ex_final :
+  option_map (fun p => (quiescent (fst p), proc_rows (fst p), node_ids (files (fst p)), reported (fst p)))
+             (run (init ex_acts) (ex_sch1 ++ ex_sch2))
+  = Some (true, [ex_r1; ex_r3; ex_r2], [], [ex_r1; ex_r2]).
+Proof. vm_compute. reflexivity. Qed.
+(* an acquire of a held lock is not enabled *)
+Example c08_ex_blocked :
+  run (init ex_acts) [(1, []); (2, [])] = None.
+Proof. vm_compute. reflexivity. Qed.
+Example c08_ex_csv :
+  format_row ex_r2 = """q""""x y"",-9,canceled,0.0,100.5,77" /\
+  parse_line delim (format_row ex_r2) = Some (row_fields ex_r2) /\ delim_ok delim.
+Proof. vm_compute. repeat split; reflexivity. Qed.
